@@ -339,6 +339,8 @@ class MixEval:
         if isinstance(fn, ast.Attribute) and d is None:
             v = self.ev(f, fn.value, env)
             if isinstance(v, pa.PArr):
+                if fn.attr in ('astype', 'copy', 'view'):
+                    return v.copy()              # the dtype argument carries no provenance
                 a = [self.ev(f, x, env) for x in e.args]
                 if fn.attr == 'reshape':
                     return v.reshape(a[0] if len(a) == 1 and isinstance(a[0], (tuple, list)) else a)
